@@ -21,7 +21,7 @@ def judgeC02 : P Verdict := do
     let some h := hd.abs | return .propfail "result of compose is not a consistent tree"
     -- property, direct on the sampled inputs: h(x) = g(f(x)), undefinedness included
     let spec : List Q → Option (List Q) := fun x => (PT.eval f x).bind (PT.eval g)
-    let (bad, inexact) := firstEvalDiff spec pts
+    let (bad, inexact) := firstEvalDiff h spec pts
     if let some (x, want, got) := bad then
       return .propfail s!"compose: at input {showVec x} g(f(x)) = {showOptVec want} but the composed tree evaluates to {showEval got}"
     -- property, direct: nodes of f keep index, parent and slot
@@ -47,7 +47,7 @@ def judgeC02 : P Verdict := do
     if f.size ≥ 3 then tag "nt"
     let some h := hd.abs | return .propfail "result of apply_func is not a consistent tree"
     let spec : List Q → Option (List Q) := fun x => (PT.eval f x).map a.apply
-    let (bad, inexact) := firstEvalDiff spec pts
+    let (bad, inexact) := firstEvalDiff h spec pts
     if let some (x, want, got) := bad then
       return .propfail s!"apply_func: at input {showVec x} a(f(x)) = {showOptVec want} but the tree evaluates to {showEval got}"
     match treeCmp f.indices true (PT.applyFunc f a) h with
